@@ -12,6 +12,13 @@ import (
 
 func init() { vh.Register("C01", runC01) }
 
+// c01Extra: additional case families of this property (other files of the c01 group append
+// to it in their init); each gets the same Ctx and reports into the same result.
+var c01Extra []vh.PropFunc
+
+// c01ReplayExtra: replay dispatch for the extra families, by the "kind" field of the case.
+var c01ReplayExtra = map[string]func(ctx *vh.Ctx, raw json.RawMessage) error{}
+
 type c01Case struct {
 	G     *gcase.Graph `json:"g"`
 	Input string       `json:"input"`
@@ -80,6 +87,14 @@ func c01One(ctx *vh.Ctx, c *c01Case) error {
 func runC01(ctx *vh.Ctx) error {
 	ctx.Res.Rule = "random any-predecessor (Pregel) graphs: 1-8 nodes, edges incl. cycles/self loops, 0-2 single/multi branches scripted by a table on hash(output), fan-in by map merge, pass-through and failing nodes, nested graphs (depth<=2, either mode), explicit/default step limits; non-trivial = >=2 supersteps and (cycle | fan-in | branch | nested); distinct by canonical case"
 	if ctx.Replay != nil {
+		var probe struct {
+			Kind string `json:"kind"`
+		}
+		if json.Unmarshal(ctx.Replay, &probe) == nil && probe.Kind != "" {
+			if f, ok := c01ReplayExtra[probe.Kind]; ok {
+				return f(ctx, ctx.Replay)
+			}
+		}
 		var c c01Case
 		if err := json.Unmarshal(ctx.Replay, &c); err != nil {
 			return err
@@ -94,6 +109,11 @@ func runC01(ctx *vh.Ctx) error {
 		}
 		c := &c01Case{G: gcase.Gen(ctx.Rng, o), Input: fmt.Sprintf("x%d", ctx.Rng.Intn(5))}
 		if err := c01One(ctx, c); err != nil {
+			return err
+		}
+	}
+	for _, f := range c01Extra {
+		if err := f(ctx); err != nil {
 			return err
 		}
 	}
